@@ -72,8 +72,13 @@ unsigned int get_rex_prefix(struct instr *all_instr, struct operand *m,
   all_instr->hex.is_w0 = true;
   if (((all_instr->mem_disp ? r->reg : m->reg) & MODE_MASK) < reg64)
     all_instr->hex.is_w0 = false;
-  if ((m->reg & MODE_MASK) == mmx64 || (r->reg & MODE_MASK) == mmx64)
-    return get_vector_rex_prefix(all_instr, m->reg, r->reg);
+  if ((m->reg & MODE_MASK) == mmx64 || (r->reg & MODE_MASK) == mmx64) {
+    unsigned int vector_rex = get_vector_rex_prefix(all_instr, m->reg, r->reg);
+    // an extended index register of the memory operand needs REX.X / VEX.X
+    if (m->index & REG_RB)
+      vector_rex |= rex_ | rex_x;
+    return vector_rex;
+  }
   if (all_instr->keyword.is_keyword)
     overide_opd_size(all_instr, &rm);
   else if (!(rm & reg_none) && !(rm & MODE_MASK) && rm >= spl)
